@@ -2725,7 +2725,9 @@ class PGPKey(Armorable, ParentRef, PGPObject):
                     for sig in _filter_sigs(subkey.__sig__):
                         sspairs.append((sig, subkey))
 
-        elif signature.signer in {self.fingerprint.keyid} | set(self.subkeys):
+        elif not signature.signer.strip('0') or signature.signer in {self.fingerprint.keyid} | set(self.subkeys):
+            # (a v4 signature need not name its issuer - RFC 4880 requires only the creation time -, or may name the
+            # wild card: handed over together with this key it is tried with this key)
             # a detached signature over a message covers the message text, like one carried inside it; handing the
             # PGPMessage on would have hashdata() iterate its packets (nothing at all for an unsigned cleartext message)
             sspairs += [(signature, _signed_octets(subject) if isinstance(subject, PGPMessage) else subject)]
@@ -2736,6 +2738,13 @@ class PGPKey(Armorable, ParentRef, PGPObject):
         # finally, start verifying signatures
         sigv = SignatureVerification()
         for sig, subj in sspairs:
+            if not sig.signer.strip('0'):
+                # no issuer named: the component of this key that really made the signature answers for it
+                maker = next((sk for sk in self.subkeys.values() if sk._issued(sig, subj)), None)
+                if maker is not None and not self._issued(sig, subj):
+                    sigv &= maker.verify(subj, sig)
+                    continue
+
             if self.fingerprint.keyid != sig.signer and sig.signer in self.subkeys:
                 sigv &= self.subkeys[sig.signer].verify(subj, sig)
 
